@@ -43,15 +43,15 @@ CLAIMED = {
    note="Trusted: simulator seams; files attributed to requests by liveness (any request in progress), not by name.",
    technique="deterministic simulation with fault injection inside uploads (disconnect offsets, disk errors, task cancellation); per-step directory invariant"),
  "C11": dict(cat="exploration", sec="3 C11", engine="sse",
-   text="Response::event_stream with the real bounded channel, senders, receiver, response writer and chunked encoder; the writer future is polled by hand between sender steps and only when its waker fired; 1-4+ senders, queue overrun, stalled and disappearing clients; event contents over the awkward classes. Independent chunked decoder + independent WHATWG event-stream parser; accepted events must equal dispatched events exactly once, in order; no injected fields; terminating chunk iff all senders gone. Second level through the full simulated server.",
+   text="Response::event_stream with the real bounded channel, senders, receiver, response writer and chunked encoder; the writer future is polled by hand between sender steps and only when its waker fired; EVERY interleaving of up to 5 (quick) / 6 (thorough) steps over {writer poll, send, clone, disconnect, drop} for up to 3 senders, plus sampled longer ones with 1-4+ senders, queue overrun, stalled and disappearing clients; event contents over the awkward classes. Independent chunked decoder + independent WHATWG event-stream parser; accepted events must equal dispatched events exactly once, in order; no injected fields; terminating chunk iff all senders gone. Second level through the full simulated server.",
    note="Trusted: the SSE parser (oracle/sse.rs), chunked decoder. Two genuine defects are recorded as known findings (blank line pinned by the test suite; events larger than the read buffer) and matched by clause + detail.",
    technique="deterministic simulation of sender/writer interleavings with lost-wake-up detection; independent EventSource parser as oracle"),
  "C12": dict(cat="exploration", sec="3 C12", engine="server",
-   text="max_conns 1-4 with 2-3x as many clients ending in every listed way, held handlers, EMFILE/abort bursts from the simulated listener, task cancellation. Per-step invariant (connections being serviced and handlers in flight <= max_conns); conservation decided by quiescence: after any history max_conns+1 fresh connections with held handlers - exactly max_conns reach their handler. Slot-pool API sequences against a counter model.",
+   text="max_conns 1-4 with 2-3x as many clients ending in every listed way, held handlers, EMFILE/abort bursts from the simulated listener, task cancellation. Per-step invariant (connections being serviced and handlers in flight <= max_conns); conservation decided by quiescence: after any history max_conns+1 fresh connections with held handlers - exactly max_conns reach their handler. EVERY slot-pool API sequence to depth 6 (quick) / 8 (thorough) plus sampled deeper ones against a counter model; a stage with a stopped global logger installed while accept failures are logged.",
    note="Trusted: simulator seams; unbounded accept backlog and blocking pool.",
    technique="deterministic simulation with accept-fault injection; per-step limit invariant + conservation probe decided by quiescence"),
  "C13": dict(cat="exploration", sec="3 C13", engine="server",
-   text="Seeded simulation of the real server with a revocable permit; clients in mixed phases never close by themselves; the revocation is one more scheduler action placed at a tape-chosen step, so it lands at every await point of the accept loop and connection tasks, including 'all slots held by idle connections'. Safety clauses on the event history; liveness decided by quiescence, not by a timeout.",
+   text="Seeded simulation of the real server with a revocable permit; clients in mixed phases never close by themselves; the revocation is one more scheduler action placed at a tape-chosen step, so it lands at every await point of the accept loop and connection tasks, including 'all slots held by idle connections'; a stage in which every accept fails with EMFILE (virtual 500 ms back-off) and the server must still stop within a bounded virtual time. Safety clauses on the event history; liveness decided by quiescence, not by a timeout.",
    note="Trusted: simulator seams and the quiescence detector. 'Bounded time' = before quiescence.",
    technique="deterministic simulation: revocation injected at seeded scheduler steps; history checks + liveness by quiescence"),
  "C18": dict(cat="exploration", sec="3 C18", engine="threads",
